@@ -9,6 +9,8 @@ mod values;
 mod chan;
 mod script;
 mod routerrole;
+#[cfg(feature = "async")]
+mod asyncrole;
 
 use serde_json::json;
 
@@ -41,6 +43,8 @@ fn main() {
         "agent" => chan::agent_main(&args[2]),
         "script" => script::run(),
         "router" => routerrole::run(),
+        #[cfg(feature = "async")]
+        "async" => asyncrole::run(),
         _ => {
             eprintln!("usage: vharness <role> ...");
             std::process::exit(2);
